@@ -209,7 +209,16 @@ pub fn explain_why_not(relation: &str, target: &Tuple, ctx: &ProofContext<'_>) -
                     }
                     BodyPredicate::Negated(ref atom) => {
                         let bound = substitute_atom(atom, &current_bindings);
-                        let matches = find_matching_tuples(&atom.relation, &bound, ctx.base_data);
+                        // The negated relation may be a derived one: also look at
+                        // the derived data, as the positive case does
+                        let mut matches =
+                            find_matching_tuples(&atom.relation, &bound, ctx.base_data);
+                        if matches.is_empty() {
+                            matches = ctx
+                                .derived_data
+                                .map(|d| find_matching_tuples(&atom.relation, &bound, d))
+                                .unwrap_or_default();
+                        }
 
                         if !matches.is_empty() {
                             // Negation FAILED (tuple exists that shouldn't)
